@@ -76,7 +76,7 @@ func main() {
 				return v.Parent() != nil && v.Parent() != v.Pkg().Scope() && v.Parent() != types.Universe
 			}
 			changed := 0
-			if *mode == "noop" || *mode == "flip" {
+			if *mode != "rename" {
 				changed = transform(*mode, info, f)
 				if changed > 0 {
 					out, err := os.Create(name)
@@ -162,6 +162,60 @@ func callFree(e ast.Expr) bool {
 	return ok
 }
 
+// negate returns the logical negation of a condition, the way a person would write it.
+func negate(info *types.Info, c ast.Expr) ast.Expr {
+	switch x := c.(type) {
+	case *ast.ParenExpr:
+		return negate(info, x.X)
+	case *ast.UnaryExpr:
+		if x.Op == token.NOT {
+			if p, ok := x.X.(*ast.ParenExpr); ok {
+				return p.X
+			}
+			return x.X
+		}
+	case *ast.BinaryExpr:
+		isFloat := func(e ast.Expr) bool {
+			if t := info.TypeOf(e); t != nil {
+				if b, ok := t.Underlying().(*types.Basic); ok && b.Info()&types.IsFloat != 0 {
+					return true
+				}
+			}
+			return false
+		}
+		var op token.Token
+		switch x.Op {
+		case token.EQL:
+			op = token.NEQ
+		case token.NEQ:
+			op = token.EQL
+		case token.LSS:
+			op = token.GEQ
+		case token.GEQ:
+			op = token.LSS
+		case token.GTR:
+			op = token.LEQ
+		case token.LEQ:
+			op = token.GTR
+		case token.LAND:
+			return &ast.BinaryExpr{X: paren(negate(info, x.X)), Op: token.LOR, Y: paren(negate(info, x.Y))}
+		case token.LOR:
+			return &ast.BinaryExpr{X: paren(negate(info, x.X)), Op: token.LAND, Y: paren(negate(info, x.Y))}
+		}
+		if op != token.ILLEGAL && !isFloat(x.X) {
+			return &ast.BinaryExpr{X: x.X, Op: op, Y: x.Y}
+		}
+	}
+	return &ast.UnaryExpr{Op: token.NOT, X: &ast.ParenExpr{X: c}}
+}
+
+func paren(e ast.Expr) ast.Expr {
+	if b, ok := e.(*ast.BinaryExpr); ok && (b.Op == token.LAND || b.Op == token.LOR) {
+		return &ast.ParenExpr{X: e}
+	}
+	return e
+}
+
 func transform(mode string, info *types.Info, f *ast.File) int {
 	n := 0
 	noop := func() ast.Stmt {
@@ -195,6 +249,15 @@ func transform(mode string, info *types.Info, f *ast.File) int {
 			if mode == "noop" {
 				x.Body = append([]ast.Stmt{noop()}, x.Body...)
 				n++
+			}
+		case *ast.IfStmt:
+			// invert: if c {A} else {B}  =>  if !c {B} else {A}   (plain else blocks only)
+			if mode == "invert" {
+				if eb, ok := x.Else.(*ast.BlockStmt); ok {
+					x.Cond = negate(info, x.Cond)
+					x.Body, x.Else = eb, x.Body
+					n++
+				}
 			}
 		case *ast.BinaryExpr:
 			if mode != "flip" {
